@@ -3,3 +3,4 @@ import Lemmas.ExecInv
 import Lemmas.ExecDir
 import Lemmas.Pending
 import Lemmas.Hash
+import Lemmas.Lex
